@@ -10,8 +10,9 @@ RULE = (
     "statement branch, try/finally); operand values from falsy {0, \"\", None, False} and truthy {1, \"a\", True, 7} under a "
     "truthiness assignment; the form is used as a value, as a setv right-hand side (also one that reads the target), as a call "
     "argument, as an if test, nested in another and/or, at module level and in a function. Quick: Hypothesis-sampled; thorough: "
-    "all shape vectors over {plain, effectful, statement} x all truthiness assignments for arity <= 4 (enumerated) plus sampled "
-    "arities 5..8. Also the function forms (and #* xs) and hy.pyops and/or on value lists. Oracle: Python's and/or chain in the "
+    "all shape vectors over {plain, effectful, statement, nullary same operator, nested same operator ending in its nullary call} x all truthiness assignments for arity <= 4 (enumerated) plus sampled "
+    "arities 5..8. Operands may also be the nullary call of the same or the other operator and a nested call of the same operator "
+    "(ending in a plain value or in the nullary call). Also the function forms (and #* xs) and hy.pyops and/or on value lists. Oracle: Python's and/or chain in the "
     "reference interpreter; the effect log must be exactly the operands up to the deciding one, in order. "
     "Non-trivial = some statement-producing operand is not first; distinct by source"
 )
@@ -38,6 +39,13 @@ def build(case):
             ops.append(["var", name])
         elif shape == "eff":
             ops.append(["eff", next(ids), v])
+        elif shape == "nul-same":  # (and) is True, (or) is None, whatever the truth vector says
+            ops.append([case["op"], []])
+        elif shape == "nul-other":
+            ops.append(["or" if case["op"] == "and" else "and", []])
+        elif shape in ("nest-same", "nest-same-nul"):  # the same operator nested: (and a (and p v)) / (and a (and p (and)))
+            passing = ["lit", 7 if case["op"] == "and" else 0]
+            ops.append([case["op"], [passing, ["lit", v] if shape == "nest-same" else [case["op"], []]]])
         else:
             var = case["variants"][i % len(case["variants"])] if case.get("variants") else "do-eff"
             e1, e2 = next(ids), next(ids)
@@ -142,7 +150,8 @@ def shard(ctx):
         n = draw(st.integers(0, 8))
         return dict(
             op=draw(st.sampled_from(["and", "or"])),
-            shapes=[draw(st.sampled_from(["plain", "var", "eff", "stmt", "stmt"])) for _ in range(n)],
+            shapes=[draw(st.sampled_from(["plain", "var", "eff", "stmt", "stmt", "plain", "var", "eff", "stmt", "stmt",
+                                          "nul-same", "nul-other", "nest-same", "nest-same-nul"])) for _ in range(n)],
             truth=[draw(st.booleans()) for _ in range(n)],
             vsel=[draw(st.integers(0, 3)) for _ in range(n)],
             variants=[draw(st.sampled_from(STMT_VARIANTS)) for _ in range(max(n, 1))],
@@ -175,7 +184,7 @@ def shard(ctx):
         k = 0
         for op in ("and", "or"):
             for n in range(0, 5):
-                for shapes in itertools.product(["plain", "eff", "stmt"], repeat=n):
+                for shapes in itertools.product(["plain", "eff", "stmt", "nul-same", "nest-same-nul"], repeat=n):
                     for truth in itertools.product([False, True], repeat=n):
                         k += 1
                         if k % ctx.n != ctx.k:
